@@ -348,6 +348,17 @@ def check_dataset_group(n, group, res):
                 res.fail(f"C17|get_batch|{ic}|{sym}", f"get_batch({idxs}) is not the stack [inputs; targets] of items {order} in that order"
                          + (f" (it is the stack of items {list(perm)})" if perm else "") + f", {optname(opt)}, {desc}", rd)
             res.count("batches")
+        # items read again after all the batches, in another order with repeats: same images as the first time
+        res.ev()
+        try:
+            for i in (2, 0, 1, 1, 0, 2, 0):
+                again = to_np(ds[i])
+                if not (np.array_equal(again[0], items[i][0]) and np.array_equal(again[1], items[i][1])):
+                    res.fail(f"C17|dataset|getitem_again|differs|{optname(opt)}", f"ds[{i}] read again (order 2,0,1,1,0,2,0 after the batches) differs from the "
+                             f"first read, {optname(opt)}, {desc}", rd)
+                    break
+        except Exception as ex:
+            res.fail(f"C17|dataset|getitem_again|raises|{type(ex).__name__}", f"re-reading items raised {ex!r} ({optname(opt)}) for {desc}", rd)
     # from_base_MazeDataset: the added parameters decide the images; None means the documented defaults
     base_cfg = MazeDatasetConfig(name="c17", grid_n=n, n_mazes=3)
     added = [None] + [dict(remove_isolated_cells=o[0], extend_pixels=o[1], endpoints_as_open=o[2]) for o in OPTS] \
